@@ -5,6 +5,7 @@ import (
 	"go/token"
 	"go/types"
 	"sort"
+	"strings"
 
 	"golang.org/x/tools/go/ssa"
 )
@@ -352,6 +353,16 @@ func (e *Effects) scan(fn *ssa.Function) []Write {
 				return
 			}
 			n := calleeName(x)
+			// generic stdlib helpers that write through their first argument
+			if i := strings.IndexByte(n, '['); i >= 0 {
+				n = n[:i]
+			}
+			if kind, ok := stdlibMutators[n]; ok && len(cc.Args) > 0 {
+				if owner, field, ok := e.containerField(cc.Args[0]); ok {
+					add(in, owner, field, kind, cc.Args[0])
+				}
+				return
+			}
 			switch n {
 			case "sort.Sort", "sort.Stable", "sort.Slice", "sort.SliceStable", "sort.Strings", "slices.Sort", "slices.SortFunc", "slices.Reverse":
 				if len(cc.Args) == 0 {
@@ -370,6 +381,16 @@ func (e *Effects) scan(fn *ssa.Function) []Write {
 		}
 	})
 	return out
+}
+
+// stdlibMutators: standard-library functions that write through their first argument, with the
+// write kind they amount to (maps.Copy fills a map like a loop of map updates; slices.Delete shifts
+// the elements of the backing array in place like an append onto a reslice).
+var stdlibMutators = map[string]string{
+	"maps.Copy": "mapupdate", "maps.Insert": "mapupdate", "maps.DeleteFunc": "delete",
+	"slices.Delete": "append-inplace", "slices.DeleteFunc": "append-inplace", "slices.Insert": "append-inplace",
+	"slices.Compact": "append-inplace", "slices.CompactFunc": "append-inplace", "slices.Replace": "append-inplace",
+	"slices.Grow": "append",
 }
 
 // derivesFromReslice: the append destination is (through phis and earlier appends) a reslice x[a:b] of an existing
